@@ -21,6 +21,9 @@ import (
 // event comparison is not vacuous).
 var nonEmptyEventAnswers, nonEmptyFilteredAnswers atomic.Int64
 
+// clockCases / clockSkipped: worlds whose predictions depend on the wall clock, and how many had to be dropped.
+var clockCases, clockSkipped atomic.Int64
+
 // errClass maps an error of the code under test to the small enum the model speaks.
 func errClass(err error) string {
 	switch {
